@@ -81,7 +81,12 @@ type Case struct {
 	After     bool  `json:"after,omitempty"`
 	AfterCtx  bool  `json:"after_ctx,omitempty"`
 	Setters   bool  `json:"setters,omitempty"` // install legacy hooks with the Set* methods
-	Obs       bool  `json:"obs,omitempty"`     // Observability that replaces the context
+	// NilUnset: every hook slot that is not installed is explicitly given a
+	// nil hook - by an option placed after the installed ones, or (legacy
+	// slots, with Setters) by Set*Hook(nil) after New.  A nil hook is no
+	// hook; the installed ones keep running.
+	NilUnset bool `json:"nil_unset,omitempty"`
+	Obs      bool `json:"obs,omitempty"` // Observability that replaces the context
 	// ObsOTel: the bundled OpenTelemetry Observability (SDK tracer provider
 	// that records spans) is installed instead of the harness's own.
 	ObsOTel bool `json:"obs_otel,omitempty"`
@@ -167,6 +172,20 @@ func Run(c *Case) *vkit.Outcome {
 	if c.AfterCtx {
 		opts = append(opts, eventbus.WithAfterPublishContext(afterCtx))
 	}
+	if c.NilUnset {
+		if !c.Before && !c.Setters {
+			opts = append(opts, eventbus.WithBeforePublish(nil))
+		}
+		if !c.After && !c.Setters {
+			opts = append(opts, eventbus.WithAfterPublish(nil))
+		}
+		if !c.BeforeCtx {
+			opts = append(opts, eventbus.WithBeforePublishContext(nil))
+		}
+		if !c.AfterCtx {
+			opts = append(opts, eventbus.WithAfterPublishContext(nil))
+		}
+	}
 	if c.Obs && c.ObsOTel {
 		tp := sdktrace.NewTracerProvider(sdktrace.WithSampler(sdktrace.AlwaysSample()))
 		if ob, err := ebuotel.New(ebuotel.WithTracerProvider(tp)); err == nil {
@@ -197,6 +216,12 @@ func Run(c *Case) *vkit.Outcome {
 		}
 		if c.After {
 			bus.SetAfterPublishHook(after)
+		}
+		if c.NilUnset && !c.Before {
+			bus.SetBeforePublishHook(nil)
+		}
+		if c.NilUnset && !c.After {
+			bus.SetAfterPublishHook(nil)
 		}
 	}
 
